@@ -428,4 +428,8 @@ Theorem C09_lookup_ignores_bound_keys : forall db m1 m2 k clock,
   = Src_current.Current_get_src (Src_refine_current.inject_current db m2) (VStr k) clock.
 Proof. exact Src_refine_current.current_get_ignores_map. Qed.
 Print Assumptions C09_lookup_ignores_bound_keys.
+Theorem C09_is_error_message_is_source : forall d clock,
+  Src_current.is_error_message_src (VDict d) clock = Ok (VBool (has_key (PS "error") d)).
+Proof. exact Src_refine_current.is_error_message_refines. Qed.
+Print Assumptions C09_is_error_message_is_source.
 (* --- end round 12 --- *)
